@@ -94,6 +94,26 @@ def zygote_init(repo: str) -> None:
             self.sim_structure_calls = 0
             self.sim_tag = None
 
+    import typing as _t
+
+    @attrs.define
+    class UserThing:
+        """A class of the USER (not of lsprotocol) whose field types are the generic types for which
+        get_converter registers hooks on the user's converter."""
+
+        ident: _t.Union[int, str]
+        flag: _t.Optional[_t.Union[str, bool]] = None
+        anything: _t.Optional[_t.Union[bool, _t.Any]] = None
+        maybe_id: _t.Optional[_t.Union[int, str]] = None
+        nothing: type(None) = None  # type: ignore[valid-type]
+        label: _t.Union[str, _t.Tuple[int, int]] = "x"
+
+    @attrs.define
+    class UserBox:
+        things: _t.List[UserThing] = attrs.field(factory=list)
+        position: _t.Optional[lsp.Position] = None
+
+    Z["user_types"] = {"UserThing": UserThing, "UserBox": UserBox}
     Z.update(
         repo=repo,
         conv=conv,
@@ -182,7 +202,7 @@ def do_use(conv: Any, k: int) -> Tuple:
     name, tname, js = battery.STRUCT[k]
     lsp = Z["lsp"]
     try:
-        t = getattr(lsp, tname)
+        t = Z["user_types"].get(tname) or getattr(lsp, tname)
         inp = json.loads(json.dumps(js))
         obj = conv.structure(inp, t)
         if inp != js:
@@ -205,9 +225,10 @@ def do_build(conv: Any, k: int) -> Tuple:
     try:
         obj = eval(expr, {"lsp": lsp})
         out = json.dumps(conv.unstructure(obj), sort_keys=False, default=_addr_free_repr)
-        # and back again through the declared class
+        # the same through the explicit-type entry point, and back again through the declared class
+        out_as = json.dumps(conv.unstructure(obj, unstructure_as=type(obj)), sort_keys=False, default=_addr_free_repr)
         back = conv.structure(json.loads(out), type(obj))
-        return ("ok", core.digest(out), core.digest(typed(back)))
+        return ("ok", core.digest(out), core.digest(typed(back)), core.digest(out_as))
     except Exception as e:
         return ("err", type(e).__name__, core.digest(exc_shape(e)))
 
@@ -542,6 +563,11 @@ def gen_run(run_seed: int, tier: str) -> Dict[str, Any]:
                         others = [q for q in range(nslots) if q != s and q not in customised]
                         if others:
                             ops += use_ops(r_ops.choice(others), 2)
+                elif x < 0.955 and n > 1:
+                    # hand a converter over to the other threads (created here, used there)
+                    ops.append(["PUBLISH", r_ops.randrange(nslots), t])
+                elif x < 0.965 and n > 1:
+                    ops.append(["USEG", r_ops.randrange(n), pick_k()])
                 elif x < 0.97 and nslots >= 2 and n == 1:
                     # let a converter die (drop + collect), then create another: ids / weak references
                     # of dead converters must not matter (single-thread histories only: collection
@@ -615,6 +641,8 @@ def execute(run: Dict[str, Any], golden: Dict[str, Any]) -> Dict[str, Any]:
         "extra_battery_used": 0,
         "dropped_and_collected": 0,
         "preused_user_converter": 0,
+        "used_in_another_thread": 0,
+        "clock_jumps": 0,
     }
 
     # model: identity -> customisation (None | 'pre:V' | 'post:V') and configuration (dv, fek)
@@ -734,14 +762,30 @@ def execute(run: Dict[str, Any], golden: Dict[str, Any]) -> Dict[str, Any]:
                         break
 
     sched.probe_cb = probe_cb
+    published: Dict[int, Any] = {}
     active_shared: Dict[int, int] = {}
     get_finished = [0]
     any_custom = [False]
+
+    import time as _time
+
+    r_clock = core.rng(run["run_seed"], "clock")
+    sim_now = [1_000_000.0]
+    real_time_fns = (_time.time, _time.monotonic, _time.perf_counter, _time.time_ns, _time.monotonic_ns)
+    _time.time = lambda: 1.7e9 + sim_now[0]
+    _time.monotonic = lambda: sim_now[0]
+    _time.perf_counter = lambda: sim_now[0]
+    _time.time_ns = lambda: int((1.7e9 + sim_now[0]) * 1e9)
+    _time.monotonic_ns = lambda: int(sim_now[0] * 1e9)
 
     def thread_fn(idx: int) -> None:
         slots: Dict[int, Any] = {}
         for oi, op in enumerate(run["threads"][idx]):
             kind = op[0]
+            if r_clock.random() < 0.3:
+                # the simulated clock jumps between operations: milliseconds, a minute, an hour, a day
+                sim_now[0] += r_clock.choice([0.001, 0.5, 61.0, 3601.0, 86401.0])
+                probes["clock_jumps"] += 1
             if kind in ("USE", "BUILD", "CUSTOM", "REGET", "DROP") and op[1] not in slots:
                 continue  # slot never created (minimised script): no-op
             sched.yield_point(("op", oi, kind))
@@ -861,6 +905,23 @@ def execute(run: Dict[str, Any], golden: Dict[str, Any]) -> Dict[str, Any]:
                                 "msg": f"thread {idx} op {oi} BUILD({nm}) on a [{kind_of(c)}] converter gave {outcome}, a lone converter of that kind gives {tuple(exp)}",
                             }
                         )
+                elif kind == "PUBLISH":
+                    c = slots.get(op[1])
+                    if c is not None and mode.get(id(c)) is None:
+                        published[op[2]] = c
+                    outcome = ("published",)
+                elif kind == "USEG":
+                    c = published.get(op[1])
+                    if c is None:
+                        outcome = ("not-published-yet",)
+                    else:
+                        probes["used_in_another_thread"] += 1 if op[1] != idx else 0
+                        outcome = do_use(c, op[2])
+                        exp = gold(c)["use"][op[2]]
+                        if tuple(exp) != tuple(outcome):
+                            nm = battery.STRUCT[op[2]][0]
+                            viol.append({"sig": f"use-differs:{exp[0]}->{outcome[0]}",
+                                         "msg": f"thread {idx} op {oi} USE({nm}) of a [{kind_of(c)}] converter created by thread {op[1]} gave {outcome} but a lone converter of that kind gives {tuple(exp)}"})
                 elif kind == "YIELD":
                     outcome = ("yield",)
             except Exception as e:  # an op of the system under test raised: that is an observation
@@ -894,6 +955,7 @@ def execute(run: Dict[str, Any], golden: Dict[str, Any]) -> Dict[str, Any]:
         harness = f"wall timeout: {e}"
     finally:
         _th.Lock, _th.RLock, _th.Event, _th.Condition = real_Lock, real_RLock, real_Event, real_Condition
+        _time.time, _time.monotonic, _time.perf_counter, _time.time_ns, _time.monotonic_ns = real_time_fns
     for i, e in enumerate(sched.errors):
         if e is not None:
             harness = f"driver exception in thread {i}: {core.fmt_exc(e)}"
